@@ -499,9 +499,9 @@ class Scanner(AsyncScript, ABC):
     async def teardown(self) -> None:
         await self.transport.close()
 
-        if self.db_handler is not None:
-            # Close the DB handler that was opened in `setup`
-            await self.db_handler.disconnect()
+        # The database connection stays open: `entry_point()` opened it and
+        # closes it in `_db_finish_run_meta()`, after the end time and the
+        # exit code of this run have been written.
 
         if self.dumpcap:
             await self.dumpcap.stop()
